@@ -172,6 +172,7 @@ type SinkPlan struct {
 	FailAt2 int  `json:"fail_at2"`          // a second transient fault (-1 = none)
 	Sticky  bool `json:"sticky,omitempty"`  // every later call fails as well
 	Partial bool `json:"partial,omitempty"` // the failing call accepts half of the bytes
+	Full    bool `json:"full,omitempty"`    // the failing call accepts all bytes and still returns an error
 }
 
 // Sink is an in-memory io.Writer under a plan.
@@ -189,6 +190,11 @@ func (s *Sink) Write(p []byte) (int, error) {
 	fail := idx == s.Plan.FailAt || (s.Plan.FailAt2 >= 0 && idx == s.Plan.FailAt2) || (s.Plan.Sticky && s.Plan.FailAt >= 0 && idx > s.Plan.FailAt)
 	if fail {
 		s.Fired++
+		if s.Plan.Full {
+			// legal for an io.Writer: n == len(p) together with a non-nil error
+			s.Buf = append(s.Buf, p...)
+			return len(p), ErrInjected
+		}
 		if s.Plan.Partial && len(p) > 1 {
 			s.Buf = append(s.Buf, p[:len(p)/2]...)
 			return len(p) / 2, ErrInjected
